@@ -35,6 +35,7 @@ FORMATS = ["json", "xml", "rdf", "provn"]
 NAMES = {
     "plain": "out.%s", "absolute": None, "spaces": "my prov doc.%s", "nonascii": "dömö-文書.%s", "hash": "a#b.%s",
     "question": "a?b.%s", "semicolon": "a;b.%s", "colon": "x:y.%s", "percent": "p%%41q.%s",
+    "scheme": "ex:e1.%s", "scheme-dash": "prov-n:out.%s",     # file names that look like 'scheme:rest' (a qualified name!)
 }
 OLD = b"OLD CONTENT that must survive a failed write\n" * 3
 REQUIRED_CLASSES = {"all": ["fault:write:fired", "fault:rename:fired", "fault:serialisation_raises", "fault:short_write_then_EFBIG", "sequence:two_directories", "name:hash", "name:colon",
@@ -107,6 +108,15 @@ def _listing(d):
     return out
 
 
+def _bystanders(fmt, target, work):
+    """unrelated files that must not be touched ('a#b.json' must not end up in 'a', 'ex:e1.json' not in 'e1.json'), and
+    the usual side-file names of the destination (a draft saved as 'report.json.tmp' is not the library's to take)"""
+    base = os.path.basename(target)
+    names = ["a", "x", "y." + fmt, "p", "pAq." + fmt, "ex", "e1." + fmt, "out2." + fmt,
+             base + ".tmp", base + ".bak", base + "~", "." + base + ".tmp"]
+    return [n for n in names if os.path.join(work, n) != target]
+
+
 def run_child(case, scratch, inject=None, poison=False, extra=None):
     """-> (exit code, strace log lines, work dir, tmp dir, file name as given, absolute path of the named file)"""
     work = os.path.join(scratch, "work")
@@ -118,7 +128,7 @@ def run_child(case, scratch, inject=None, poison=False, extra=None):
     name = os.path.join(work, "abs-out.%s" % case["fmt"]) if pat is None else pat % case["fmt"]
     target = name if os.path.isabs(name) else os.path.join(work, name)
     # unrelated files that must not be touched ('a#b.json' must not end up in 'a')
-    for other in ("a", "x", "y." + case["fmt"], "p", "pAq." + case["fmt"]):
+    for other in _bystanders(case["fmt"], target, work):
         with open(os.path.join(work, other), "wb") as f:
             f.write(b"bystander")
     if case["pre"]:
@@ -168,11 +178,11 @@ def check(case, ctx):
         ctx.count("preexisting:%s" % case["pre"])
         ctx.count("tmp:%s" % ("other_device" if case["tmp"] == "other" else "same_fs"))
         ctx.count("format:" + case["fmt"])
-        urlish = case["name"] in ("hash", "question", "semicolon", "colon", "percent")
+        urlish = case["name"] in ("hash", "question", "semicolon", "colon", "percent", "scheme", "scheme-dash")
         # ---- fault-free run
         rc, lines, work, tmpd, name, target = run_child(case, scratch)
         ctx.count("child_runs")
-        before = {"a": 9, "x": 9, "y." + case["fmt"]: 9, "p": 9, "pAq." + case["fmt"]: 9}
+        before = {n: 9 for n in _bystanders(case["fmt"], target, work)}
         if rc != 0:
             items.append(_it("fault_free_run_failed", rc=rc, name=name))
             return items
